@@ -130,7 +130,7 @@ func (st *Runtime) Write(b []byte) (int, error) {
 type Runtime struct {
 	*escapeeWriter
 	*scope
-	content func(*Runtime, Expression)
+	content func(*Runtime, Expression) reflect.Value
 
 	context reflect.Value
 }
@@ -428,7 +428,7 @@ func (st *Runtime) executeLetList(set *SetNode) {
 	}
 }
 
-func (st *Runtime) executeYieldBlock(block *BlockNode, blockParam, yieldParam *BlockParameterList, expression Expression, content *ListNode) {
+func (st *Runtime) executeYieldBlock(block *BlockNode, blockParam, yieldParam *BlockParameterList, expression Expression, content *ListNode) (returnValue reflect.Value) {
 
 	needNewScope := len(blockParam.List) > 0 || len(yieldParam.List) > 0
 	if needNewScope {
@@ -457,7 +457,7 @@ func (st *Runtime) executeYieldBlock(block *BlockNode, blockParam, yieldParam *B
 	mycontent := st.content
 	if content != nil {
 		myscope := st.scope
-		st.content = func(st *Runtime, expression Expression) {
+		st.content = func(st *Runtime, expression Expression) reflect.Value {
 			outscope := st.scope
 			outcontent := st.content
 			// (deferred: when the content fails, the lists of the block body it was yielded from release their
@@ -475,23 +475,25 @@ func (st *Runtime) executeYieldBlock(block *BlockNode, blockParam, yieldParam *B
 				defer func() { st.context = context }()
 				st.context = st.evalPrimaryExpressionGroup(expression)
 			}
-			st.executeList(content)
+			return st.executeList(content)
 		}
 	}
 
+	// (what a {{return}} in the block's body, or in content it yields, hands back is handed on)
 	if expression != nil {
 		context := st.context
 		st.context = st.evalPrimaryExpressionGroup(expression)
-		st.executeList(block.List)
+		returnValue = st.executeList(block.List)
 		st.context = context
 	} else {
-		st.executeList(block.List)
+		returnValue = st.executeList(block.List)
 	}
 
 	st.content = mycontent
 	if needNewScope {
 		st.releaseScope()
 	}
+	return returnValue
 }
 
 func (st *Runtime) executeList(list *ListNode) (returnValue reflect.Value) {
@@ -638,7 +640,7 @@ func (st *Runtime) executeList(list *ListNode) (returnValue reflect.Value) {
 			node := node.(*YieldNode)
 			if node.IsContent {
 				if st.content != nil {
-					st.content(st, node.Expression)
+					keepReturnValue(&returnValue, st.content(st, node.Expression))
 				}
 			} else {
 				block, has := st.getBlock(node.Name)
@@ -651,7 +653,7 @@ func (st *Runtime) executeList(list *ListNode) (returnValue reflect.Value) {
 						node.errorf("missing value for block parameter %q in yield of block %q", p.Identifier, node.Name)
 					}
 				}
-				st.executeYieldBlock(block, block.Parameters, node.Parameters, node.Expression, node.Content)
+				keepReturnValue(&returnValue, st.executeYieldBlock(block, block.Parameters, node.Parameters, node.Expression, node.Content))
 			}
 		case NodeBlock:
 			node := node.(*BlockNode)
@@ -659,7 +661,7 @@ func (st *Runtime) executeList(list *ListNode) (returnValue reflect.Value) {
 			if has == false {
 				block = node
 			}
-			st.executeYieldBlock(block, block.Parameters, block.Parameters, block.Expression, block.Content)
+			keepReturnValue(&returnValue, st.executeYieldBlock(block, block.Parameters, block.Parameters, block.Expression, block.Content))
 		case NodeInclude:
 			node := node.(*IncludeNode)
 			keepReturnValue(&returnValue, st.executeInclude(node))
